@@ -373,9 +373,6 @@ static RunOut exercise(Case &c, Rng &r, const Bytes &file, int presel_song, int 
             ExactBuf in(f2); int rc2 = 0;
             API("opn2_openData", rc2 = opn2_openData(d, in.p, (unsigned long)in.n));
             if(rc2 != 0 && rc2 != -1) c.violation("oracle:load-return-value", vfmt("second opn2_openData returned %d", rc2));
-            // a rejected load resets the sequencer's loop counter to "endless" while the previous song stays
-            // loaded (a C18 matter); rewinding re-applies the finite count this case relies on for bounded work
-            if(rc2 != 0) API("opn2_positionRewind", opn2_positionRewind(d));
             API("opn2_totalTimeLength", len = opn2_totalTimeLength(d));
             break;
         }
